@@ -31,17 +31,23 @@ theorem rxnRate_spec (c : σ → R) (r : Reaction σ R) (keys : List σ) (s : σ
   dget?_rxnRate c r keys s
 
 /-- **`Reaction.rate(..., ratex=x)` with a number `x`**: the given number replaces the evaluated rate expression; every
-    requested substance gets `x · (prod s − reac s + inactProd s − inactReac s)`, and `Reaction.rate` itself is the case
-    `x = k·∏c^ν`.  **Named rate constants** (`param` a string, or `'k'` in a reaction line): the constant is `variables[name]`
-    (`resolveParam`), a missing name is the `KeyError`. -/
-theorem rate_with_given_ratex (x : R) (c : σ → R) (r : Reaction σ R) (keys : List σ) (s : σ) (vars : List (σ × R)) (name : σ) :
-    (dget? (rxnRateOf x r keys) s = if s ∈ keys then some (x * ((netStoich r s : ℤ) : R)) else none) ∧
-      rxnRate c r keys = rxnRateOf (r.param * activeConcProd c r) r keys ∧
-      (resolveParam vars (Param.key name) = none ↔ name ∉ dkeys vars) ∧
-      (∀ k, resolveParam vars (Param.const k : Param σ R) = some k) := by
-  refine ⟨?_, rfl, dget?_eq_none_iff, fun _ => rfl⟩
+    requested substance gets `x · (prod s − reac s + inactProd s − inactReac s)`. -/
+theorem rate_with_given_ratex (x : R) (r : Reaction σ R) (keys : List σ) (s : σ) :
+    dget? (rxnRateOf x r keys) s = if s ∈ keys then some (x * ((netStoich r s : ℤ) : R)) else none := by
   unfold rxnRateOf
   rw [dget?_dictOf_map]
+
+/-- **Named rate constants feed the rate** (`param` a string, `'k'` in a reaction line, or a plain number / `MassAction([k])`).
+    `Reaction.rate` on a `variables` dict raises `KeyError` iff the NAME of the constant is missing from `variables` or the
+    concentration of an active reactant is; otherwise it returns the ordinary rate dict with `k = variables[name]`
+    (resp. the stored number): every entry is `k·∏c^ν·net`. -/
+theorem named_parameter_feeds_rate (vars : List (σ × R)) (p : Param σ R) (r : Reaction σ R) (keys : List σ) :
+    (rateDictP vars p r keys = none ↔
+        (∃ name, p = .key name ∧ name ∉ dkeys vars) ∨ ∃ k ∈ dkeys r.reac, k ∉ dkeys vars) ∧
+      (∀ d, rateDictP vars p r keys = some d →
+        ∃ k, (p = .const k ∨ ∃ name, p = .key name ∧ dget? vars name = some k) ∧
+          d = rxnRateOf (k * activeConcProd (fun s => dgetD vars s 0) r) r keys) :=
+  rateDictP_spec vars p r keys
 
 /-- The returned dict never repeats a key, holds exactly the requested keys, and — when the requested keys are
     distinct — lists them in the requested order. -/
@@ -137,6 +143,41 @@ theorem sysRates_spec (c : σ → R) (rs : List (Reaction σ R)) (keys? : Option
     simp only [sysRates]
     rw [valueAt_addFeed c _ cs (hfc cs rfl), hbase]
     rfl
+
+/-- **The two branches of `law_of_mass_action_rates` agree.**  For a well-formed system (distinct substance keys, `len(conc) = ns`,
+    active reactants among the substances) it does not matter whether a reaction's `param` is a plain number or a `MassAction`
+    instance: the lookup BY KEY in `dict(zip(keys, conc))` and the lookup BY INDEX give the same rates, `k·∏c^ν = (∏c^ν)·k`, for
+    every mixture of the two kinds; hence `array_path_eq_dict_path` holds for `MassAction` parameters too. -/
+theorem law_branches_agree (keys : List σ) (conc : List R) (rs : List (Reaction σ R)) (kinds : List ParamKind)
+    (hnd : keys.Nodup) (hlen : conc.length = keys.length) (hk : kinds.length = rs.length)
+    (hkind : ∀ kd ∈ kinds, kd = .plain ∨ kd = .massAction) (hin : ∀ r ∈ rs, ∀ k ∈ dkeys r.reac, k ∈ keys) :
+    lawOfMassActionRatesK conc keys (rs.zip kinds) = lawOfMassActionRates conc keys rs ∧
+      lawOfMassActionRatesK conc keys (rs.zip kinds) =
+        .ok (rs.map fun r => (r.reac.map fun jν => concOf keys conc jν.1 ^ jν.2).prod * r.param) := by
+  have h := lawOfMassActionRatesK_massAction keys conc hnd hlen rs kinds hk hkind hin
+  exact ⟨h, h.trans (lawOfMassActionRates_eq hlen rs hin)⟩
+
+/-- **When does the array path succeed, and what does a refusal mean?**  (`list(law_of_mass_action_rates(conc, rsys))` with plain
+    parameters, then `dCdt_list`.)
+    (1) The rates are produced iff EVERY active reactant of every reaction is a substance of the system whose index lies inside
+        `conc`, and then they are `(∏ c^ν)·k` for the concentration function the array denotes — no other hypothesis (no
+        `len(conc) = ns`, no distinctness).
+    (2) A refusal is a `ValueError` only if some reactant is no substance, an `IndexError` only if some reactant's index lies beyond
+        `conc`; nothing else is raised.
+    (3) `dCdt_list` succeeds iff there is no substance or `rates` is at least as long as the reaction list; its only failure is the
+        `IndexError` of `rates[idx_r]`.
+    This turns the sufficient condition of `array_path_eq_dict_path` into a characterisation. -/
+theorem array_path_success_and_refusal (conc : List R) (keys : List σ) (rs : List (Reaction σ R)) (rates : List R) :
+    (∀ xs, lawOfMassActionRates conc keys rs = .ok xs ↔
+        (∀ r ∈ rs, ∀ k ∈ dkeys r.reac, ∃ i, indexOf? keys k = some i ∧ i < conc.length) ∧
+          xs = rs.map fun r => (r.reac.map fun jν => concOf keys conc jν.1 ^ jν.2).prod * r.param) ∧
+      (∀ e, lawOfMassActionRates conc keys rs = .error e →
+        (e = .valueError ∧ ∃ r ∈ rs, ∃ k ∈ dkeys r.reac, k ∉ keys) ∨
+          (e = .indexError ∧ ∃ r ∈ rs, ∃ k ∈ dkeys r.reac, ∃ i, indexOf? keys k = some i ∧ conc.length ≤ i)) ∧
+      ((∃ f, dCdtList keys rs rates = .ok f) ↔ keys = [] ∨ rs.length ≤ rates.length) ∧
+      (∀ e, dCdtList keys rs rates = .error e → e = .indexError) :=
+  ⟨fun xs => lawOfMassActionRates_ok_iff conc keys rs xs, fun _ h => lawOfMassActionRates_error conc keys rs h,
+    (dCdtList_ok_iff keys rs rates).1, (dCdtList_ok_iff keys rs rates).2⟩
 
 /-- **Stirred-tank conditions requested through `get_odesys(rsys, cstr=True)`**: the default feed description feeds
     EVERY substance of the system (whatever kind of object it is — `Species` of any phase included): each substance's rate
@@ -346,5 +387,25 @@ example : let r := reactionOfTerms [(1, "e-(aq)"), (1, "e-(aq)")] [(1, "H2"), (1
     (r.reac, r.prod, r.inactReac, r.inactProd) = ([("e-(aq)", 2)], [("H2", 1), ("OH-", 2)], [("H2O", 2)], []) ∧
     netStoichTuple (reactionOfTerms [(1, "e-(aq)"), (1, "e-(aq)")] [(1, "H2"), (1, "OH-"), (1, "OH-")] [(1, "H2O"), (1, "H2O")] [] (3 : ℚ))
       ["e-(aq)", "H2O", "H2", "OH-"] = [-2, -2, 1, 2] := by decide +kernel
+
+/-- refusals of the array path: a reactant that is no substance (`ValueError`), a `conc` that is too short (`IndexError`),
+    a `rates` vector shorter than the reaction list (`IndexError`); and success with a `conc` LONGER than the substance list -/
+example : lawOfMassActionRates [1/2, 2] ["A", "B"] exRxns = .error .valueError ∧
+    lawOfMassActionRates [1/2, 2] ["A", "B", "C", "D", "E"] exRxns = .error .indexError ∧
+    dCdtList ["A", "B"] exRxns [3/4] = .error .indexError ∧
+    lawOfMassActionRates [1/2, 2, 3, 1, 1, 9, 9] ["A", "B", "C", "D", "E"] exRxns = .ok [3/4, 15] := by decide +kernel
+
+/-- mixed parameter kinds give the same rates; another `RateExpr` is refused; a `MassAction` reactant that is no substance is a
+    `KeyError` (the plain branch says `ValueError`) -/
+example : lawOfMassActionRatesK [1/2, 2, 3, 1, 1] ["A", "B", "C", "D", "E"] (exRxns.zip [.massAction, .plain]) = .ok [3/4, 15] ∧
+    lawOfMassActionRatesK [1/2, 2, 3, 1, 1] ["A", "B", "C", "D", "E"] (exRxns.zip [.plain, .otherRateExpr]) = .error .valueError ∧
+    lawOfMassActionRatesK [1/2, 2] ["A", "B"] (exRxns.zip [.massAction, .massAction]) = .error .keyError := by decide +kernel
+
+/-- a named constant: missing from `variables` (`KeyError`), and found (`k1 = 7`): `A -> 2 B` at `[A] = 3` -/
+example : rateDictP [("A", (3 : ℚ))] (Param.key "k1") ({ reac := [("A", 1)], prod := [("B", 2)], param := 0 } : Reaction String ℚ) ["A", "B"] = none ∧
+    rateDictP [("A", (3 : ℚ)), ("k1", 7)] (Param.key "k1") ({ reac := [("A", 1)], prod := [("B", 2)], param := 0 } : Reaction String ℚ) ["A", "B"] =
+      some [("A", -21), ("B", 42)] ∧
+    rateDictP [("k1", (7 : ℚ))] (Param.const 5) ({ reac := [("A", 1)], prod := [("B", 2)], param := 0 } : Reaction String ℚ) ["A", "B"] = none := by
+  decide +kernel
 
 end ChemModel.C03
